@@ -12,6 +12,7 @@ open DendroModel
 inductive Stop where
   | parse (e : PErr)
   | internal (w : String)       -- a loop of the model asked to continue without having consumed input (`iter`); `nexus_never_internal` shows it unreachable
+  | fuel                        -- the budget of loop rounds (`RS.fuel`, set by `readNexus` to `nexusFuel |text|`) is used up; `nexus_fuel_suffices` shows it unreachable
 
 abbrev R := Except Stop
 
@@ -68,14 +69,17 @@ structure RS where
   ptok : Option (List Char) := none       -- `token` of `_parse_positions`
   positions : List Nat := []              -- `positions` of `_parse_positions`
   charsets : List (Nat × List Char × Nat) := []   -- character subsets: (matrix, lower-cased name, number of positions)
+  fuel : Nat := 0                         -- ghost of the model: how many more loop rounds (of any loop, at any nesting) may be started
 
 def RS.eof (s : RS) : Bool := s.rest.isEmpty
 
 def perr (e : PErr) : R α := .error (.parse e)
 
-/-- every loop of the reader: run `body`; if it asks to continue, the input must have become shorter -/
+/-- every loop of the reader: each round (also the last one) takes one unit of `fuel`; run `body`; if it asks to
+continue, the input must have become shorter -/
 def iter (body : RS → R (Bool × RS)) (s : RS) : R RS :=
-  match body s with
+  if s.fuel = 0 then .error .fuel else
+  match body { s with fuel := s.fuel - 1 } with
   | .error e => .error e
   | .ok (false, s') => .ok s'
   | .ok (true, s') =>
@@ -232,9 +236,8 @@ def taxaBlock (s : RS) : R RS := do
                else pure s : R RS)
       let s ← (if s.btok == some (kw "DIMENSIONS") then parseDimensions s else pure s : R RS)
       let s ← (if s.btok == some (kw "TAXLABELS") then do
-                 let s := match s.nsIdx with
-                   | some _ => s
-                   | none => { s with tns := s.tns ++ [{ title := none, labels := [] }], nsIdx := some s.tns.length }
+                 let s := if s.nsIdx.isSome then s
+                   else { s with tns := s.tns ++ [{ title := none, labels := [] }], nsIdx := some s.tns.length }
                  parseTaxlabels (s.nsIdx.getD 0) s
                else pure s : R RS)
       pure (!isEnd s.btok, s)) { s with btok := some [], nsIdx := none }
@@ -337,17 +340,29 @@ def treesBlock (s : RS) : R RS := do
 /-- Python `t in l` for strings -/
 def isInfix (t l : List Char) : Bool := (List.range (l.length + 1)).any (fun i => (l.drop i).take t.length == t)
 
+/-- the data type a DATATYPE keyword selects (`none`: not a keyword the reader knows).  The regenerated table
+`C20Consts.datatypeTable` is shown equal to this function by `datatype_bridge`. -/
+def dtOfKeyword (t : List Char) : Option DT :=
+  if t == kw "DNA" || t == kw "NUCLEOTIDES" then some .dna
+  else if t == kw "RNA" then some .rna
+  else if t == kw "NUCLEOTIDE" then some .nucleotide
+  else if t == kw "PROTEIN" then some .protein
+  else if t == kw "CONTINUOUS" then some .continuous
+  else none
+
+/-- the library's name of a data type (`self._data_type`) -/
+def DT.name : DT → String
+  | .dna => "dna" | .rna => "rna" | .nucleotide => "nucleotide" | .protein => "protein"
+  | .continuous => "continuous" | .standard => "standard"
+
 /-- FORMAT … DATATYPE = x -/
 def fmtDatatype (s : RS) : R (Bool × RS) := do
   let (t, s) ← requireUcase s
   if t != ['='] then perr .nexus else
   let (t, s) ← requireUcase s
-  let s := if t == kw "DNA" || t == kw "NUCLEOTIDES" then { s with dataType := .dna }
-    else if t == kw "RNA" then { s with dataType := .rna }
-    else if t == kw "NUCLEOTIDE" then { s with dataType := .nucleotide }
-    else if t == kw "PROTEIN" then { s with dataType := .protein }
-    else if t == kw "CONTINUOUS" then { s with dataType := .continuous }
-    else { s with dataType := .standard, symbols := kw "0123456789" }
+  -- any other keyword: STANDARD, and the symbols are reset to the digits
+  let s := { s with dataType := (dtOfKeyword t).getD .standard,
+                    symbols := if (dtOfKeyword t).isSome then s.symbols else kw "0123456789" }
   let (t, s) ← requireUcase s
   pure (true, { s with stok := t })
 
@@ -580,9 +595,10 @@ def getCharMatrix (title : Option (List Char)) (s : RS) : R Nat :=
     | [j] => pure j
     | _ => perr .nexus
 
-/-- `range(start, stop + 1, step)` restricted to positions `≤ max` -/
+/-- `range(start, min(stop, max) + 1, step)`: the positions of a range that lie inside the matrix (repaired: the range is
+clamped before it is walked, so its cost does not depend on the number the document writes; `charset_range_bounded`) -/
 def stepRange (start stop step max : Nat) : List Nat :=
-  ((List.range ((stop + 1 - start + step - 1) / step)).map (fun k => start + k * step)).filter (fun q => q ≤ max)
+  (List.range ((min stop max + 1 - start + step - 1) / step)).map (fun k => start + k * step)
 
 /-- the part of `_parse_positions` after `start - `: the end of the range and an optional `\ step` -/
 def positionsRange (start max : Nat) (s : RS) : R (Bool × RS) := do
@@ -675,20 +691,35 @@ def skipToBegin (s : RS) : R RS :=
     let (t, s) ← nextUcase s
     pure (t.isSome && t != some (kw "BEGIN") && !s.eof, s)) s
 
+/-- which branch of `_parse_nexus_stream` a block name takes: 0 TAXA, 1 CHARACTERS / DATA, 2 TREES, 3 SETS / ASSUMPTIONS /
+CODONS, 4 the branch that raises (BEGIN), 5 an unknown block.  The regenerated groups `C20Consts.blockGroups` are shown
+equal to this function by `block_names_bridge`. -/
+def blockKind (t : Option (List Char)) : Nat :=
+  if t == some (kw "TAXA") then 0
+  else if t == some (kw "CHARACTERS") || t == some (kw "DATA") then 1
+  else if t == some (kw "TREES") then 2
+  else if t == some (kw "SETS") || t == some (kw "ASSUMPTIONS") || t == some (kw "CODONS") then 3
+  else if t == some (kw "BEGIN") then 4
+  else 5
+
 def readBlock (sy : Syms) (s : RS) : R RS := do
   let s ← skipToBegin s
   let (t, s) ← nextUcase s
   let s := { s with btok := t }
-  if t == some (kw "TAXA") then taxaBlock s
-  else if t == some (kw "CHARACTERS") || t == some (kw "DATA") then charsBlock sy s
-  else if t == some (kw "TREES") then treesBlock s
-  else if t == some (kw "SETS") || t == some (kw "ASSUMPTIONS") || t == some (kw "CODONS") then setsBlock s
-  else if t == some (kw "BEGIN") then perr .nexus
+  if blockKind t == 0 then taxaBlock s
+  else if blockKind t == 1 then charsBlock sy s
+  else if blockKind t == 2 then treesBlock s
+  else if blockKind t == 3 then setsBlock s
+  else if blockKind t == 4 then perr .nexus
   else consumeToEnd t s
+
+/-- the global budget of loop rounds for a text of `n` characters: all loops of the reader together — the block loop,
+the statement loops inside it, the row / cell / multistate loops inside those — go round at most this often -/
+def nexusFuel (n : Nat) : Nat := 18 * n + 8
 
 /-- `_parse_nexus_stream` (repaired: an empty source is not a NEXUS file) -/
 def readNexus (sy : Syms) (text : List Char) : R RS := do
-  let (t, s) ← nextTok { rest := text }
+  let (t, s) ← nextTok { rest := text, fuel := nexusFuel text.length }
   match t with
   | none => perr .nexus
   | some t =>
